@@ -385,11 +385,18 @@ class MeiParser(object):
         els_with_dur = self.music_el.xpath(".//*[@dur]")
         durs = []
         durs_ppq = []
+        quarters = []
         for el in els_with_dur:
             symbolic_duration = self._get_symbolic_duration(el)
             intsymdur, dots, tuplet_mod = self._intsymdur_from_symbolic(
                 symbolic_duration
             )
+            # exact length of the element in quarter notes
+            el_quarters = Fraction(4) / Fraction(intsymdur)
+            el_quarters *= Fraction(2 ** (dots + 1) - 1, 2**dots)
+            if tuplet_mod is not None:
+                el_quarters *= Fraction(tuplet_mod[0], tuplet_mod[1])
+            quarters.append(el_quarters)
             if tuplet_mod is not None:
                 # consider time modifications keeping the numerator of the minimized fraction
                 minimized_fraction = Fraction(intsymdur * tuplet_mod[1], tuplet_mod[0])
@@ -402,13 +409,20 @@ class MeiParser(object):
 
         if any([dppq is not None for dppq in durs_ppq]):
             # there is at least one element with both dur and dur.ppq
-            for dur, dppq in zip(durs, durs_ppq):
+            for el_quarters, dppq in zip(quarters, durs_ppq):
                 if dppq is not None:
-                    return dppq * dur / 4
+                    return float(dppq / el_quarters)
         else:
             # compute the ppq from the durations
             # add 4 to be sure to not go under 1 ppq
             durs.append(4)
+            # measure rests last a whole measure: the beat unit of every
+            # declared meter must be representable as well
+            for el in self.music_el.xpath(".//*[@meter.unit]"):
+                durs.append(int(el.get("meter.unit")))
+            for el in self.music_el.findall(self._ns_name("meterSig", all=True)):
+                if el.get("unit") is not None:
+                    durs.append(int(el.get("unit")))
             durs = np.array(durs)
             # remove elements smaller than 1
             durs = durs[durs >= 1]
